@@ -657,21 +657,24 @@ def run_c03(ctx):
             if any(c["cls"] == "PMux" and len(sysst["par"][n]) > 1 for n, c in sysst["comps"].items()):
                 continue
             kdes = rng.randrange(1 << 30)
-            descs, dg = _designed.design(sysst, _random.Random(kdes))
+            # (designs that are re-parameterised to 1/50 of their currents below start from loads >= 5 mA, so that the
+            #  light twin stays above 0.1 mA: below that the solver's absolute tolerance of 1e-8 A is a visible fraction)
+            heavy = rng.random() < 0.2
+            descs, dg = _designed.design(sysst, _random.Random(kdes), imin=5e-3 if heavy else 1e-5)
             s = _designed.build_designed(descs)
             c = record(s, {}, "designed")
             c["has_design"] = True
             c["design"] = [{"name": n, "vin": _cell(d["vin"]), "vout": _cell(d["vout"]), "iin": _cell(d["iin"]),
                             "iout": _cell(d["iout"])} for n, d in dg.items()]
             nd += 1
-            if rng.random() < 0.4:
+            if heavy or rng.random() < 0.25:
                 # the same object is re-parameterised in place (change_comp keeps every node) to a second designed steady
                 # state: nothing of the first solution may survive - the second one must be found just the same
                 try:
                     from model import build as _build
                     # half of the time the SAME design with every current 50 times smaller (series resistances 50 times
                     # larger): anything kept from the first solution is 50 times too heavy for the new system
-                    descs2, dg2 = (_designed.design(sysst, _random.Random(kdes), iscale=0.02) if rng.random() < 0.5
+                    descs2, dg2 = (_designed.design(sysst, _random.Random(kdes), iscale=0.02, imin=5e-3) if heavy
                                    else _designed.design(sysst, rng))
                     with _warnings.catch_warnings():
                         _warnings.simplefilter("ignore")
